@@ -69,6 +69,19 @@ pub fn one_item_per_line(text: &str) -> String {
 /// ENUMERATED types over every root of 1..3 items numbered from {none, -1, 0, 1, 2, 5} (explicit numbers distinct, in every
 /// order), without marker, with a marker, and with one or two identifier-only additions: whatever numbers the compiler assigns,
 /// the discriminants of one enum have to be distinct for rustc (E0081)
+/// every strict and reserved Rust keyword (Idents.tla: Keywords) as component, alternative and enumeral name, `Self` also as
+/// type name: whatever the generator makes of them must still be Rust
+fn keyword_module() -> String {
+    const KW: [&str; 51] = ["as", "break", "const", "continue", "crate", "else", "enum", "extern", "false", "fn", "for", "if", "impl", "in", "let", "loop", "match",
+                            "mod", "move", "mut", "pub", "ref", "return", "self", "static", "struct", "super", "trait", "true", "type", "unsafe", "use", "where",
+                            "while", "async", "await", "dyn", "abstract", "become", "box", "do", "final", "macro", "override", "priv", "typeof", "unsized",
+                            "virtual", "yield", "try", "union"];
+    let comps: Vec<String> = KW.iter().enumerate().map(|(i, k)| if i % 3 == 0 { format!("{k} INTEGER (0..7) DEFAULT 1") } else if i % 3 == 1 { format!("{k} BOOLEAN OPTIONAL") } else { format!("{k} NULL") }).collect();
+    let alts: Vec<String> = KW.iter().map(|k| format!("{k} BOOLEAN")).collect();
+    format!("Kwmod DEFINITIONS AUTOMATIC TAGS ::= BEGIN\nKwseq ::= SEQUENCE {{ {} }}\nKwcho ::= CHOICE {{ {} }}\nKwenu ::= ENUMERATED {{ {} }}\nSelf ::= INTEGER (0..7)\nKwuse ::= SEQUENCE {{ a Self, b Kwenu DEFAULT self }}\nEND\n",
+            comps.join(", "), alts.join(", "), KW.join(", "))
+}
+
 fn enum_module() -> String {
     const NUMS: [Option<i64>; 6] = [None, Some(-1), Some(0), Some(1), Some(2), Some(5)];
     let mut roots: Vec<Vec<Option<i64>>> = vec![];
@@ -123,6 +136,7 @@ pub fn drive(args: &[String]) -> i32 {
     if let Some(j) = cfgs.iter().position(|c| c["cfg"]["imports"] == 0 && c["cfg"]["ann"] == "default" && c["cfg"]["opaque"] == true && c["cfg"]["wild"] == false
                                               && c["cfg"]["from"] == false && c["cfg"]["nostd"] == false) {
         jobs.push((vec![enum_module()], j, "enums"));
+        jobs.push((vec![keyword_module()], j, "keywords"));
     }
     // real-world modules of the repository that stand alone (no IMPORTS) -- beyond the generator grammar
     if let Some(dir) = util::arg(args, "--corpus") {
